@@ -15,7 +15,6 @@ import (
 	"encoding/json"
 	"flag"
 	"fmt"
-	"io"
 	"reflect"
 	"sort"
 	"strconv"
@@ -52,8 +51,8 @@ type H struct {
 }
 
 type Op struct {
-	K      string `json:"k"`            // node | pass | edge | branch | compile
-	ID     int    `json:"id"`           // position in the reference order (nodes first)
+	K      string `json:"k"`             // node | pass | edge | branch | compile
+	ID     int    `json:"id"`            // position in the reference order (nodes first)
 	Key    int    `json:"key,omitempty"` // node key (>= 2); 0 = START, 1 = END
 	In     string `json:"in,omitempty"`
 	Out    string `json:"out,omitempty"`
@@ -86,18 +85,32 @@ func keyName(k int) string {
 }
 
 type RunObs struct {
-	Emit   map[string]string `json:"emit"`
-	Input  string            `json:"input"`
-	Class  string            `json:"class"` // ok | type_err | panic_rec | panic_esc | other | merge | hang
-	Result string            `json:"result,omitempty"`
-	Msg    string            `json:"msg,omitempty"`
-	DClass  string           `json:"dclass,omitempty"` // the same run on the graph compiled with AllPredecessor (first build only)
-	SClass  string           `json:"sclass,omitempty"` // the same run through Stream
-	SResult string           `json:"sresult,omitempty"`
-	SMsg    string           `json:"smsg,omitempty"`
+	Emit    map[string]string `json:"emit"`
+	Input   string            `json:"input"`
+	Class   string            `json:"class"` // ok | type_err | panic_rec | panic_esc | other | merge | hang
+	Result  string            `json:"result,omitempty"`
+	Msg     string            `json:"msg,omitempty"`
+	DClass  string            `json:"dclass,omitempty"` // the same run on the graph compiled with AllPredecessor (first build only)
+	SClass  string            `json:"sclass,omitempty"` // the same run through Stream
+	SResult string            `json:"sresult,omitempty"`
+	SMsg    string            `json:"smsg,omitempty"`
+}
+
+type LatObs struct {
+	In  string `json:"in"`  // "" = nil reflect.Type
+	Arg string `json:"arg"` // "" = nil reflect.Type
+	Res int    `json:"res"` // 0 must not | 1 must | 2 may
+}
+
+type AsrtObs struct {
+	Dyn string `json:"dyn"`
+	Ty  string `json:"ty"`
+	Ok  bool   `json:"ok"`
 }
 
 type BuildObs struct {
+	Lat      []LatObs          `json:"lat,omitempty"`  // lattice case only
+	Asrt     []AsrtObs         `json:"asrt,omitempty"` // lattice case only
 	Oks      []bool            `json:"oks"`
 	Errs     []string          `json:"errs,omitempty"`
 	Compiled bool              `json:"compiled"`
@@ -667,8 +680,22 @@ func (c *Case) coq(bo *BuildObs) string {
 	if c.State != 0 {
 		st = lib.CoqSome(lib.CoqN(uint64(c.State)))
 	}
+	var lat, asrt []string
+	for _, l := range bo.Lat {
+		res := "MustNot"
+		switch l.Res {
+		case 1:
+			res = "Must"
+		case 2:
+			res = "May"
+		}
+		lat = append(lat, lib.CoqTuple(coqOTy(l.In), coqOTy(l.Arg), res))
+	}
+	for _, a := range bo.Asrt {
+		asrt = append(asrt, lib.CoqTuple(coqDynMap[a.Dyn], coqTyMap[a.Ty], lib.CoqBool(a.Ok)))
+	}
 	return lib.CoqApp("MkCase", coqUniv, coqTyMap[c.In], coqTyMap[c.Out], st,
-		lib.CoqList(ops), lib.CoqList(oks), lib.CoqList(infer), lib.CoqList(runs))
+		lib.CoqList(ops), lib.CoqList(oks), lib.CoqList(infer), lib.CoqList(runs), lib.CoqList(lat), lib.CoqList(asrt))
 }
 
 const builds = 5
@@ -686,8 +713,72 @@ func buildsFor(c *Case) int {
 	return builds
 }
 
+// The lattice case: the tables of checkAssignable and assertType over the whole universe, read
+// through the hook compose/verif_c07.go.  Sent to the model (c_lat, c_asrt) and judged here
+// by what the property needs of them, stated on dynamic values alone:
+//
+//	must     => every value the upstream type admits is held by the downstream type
+//	must not => no non-nil value the upstream type admits is held by the downstream type
+//	            (so: two distinct concrete types are never connected, a concrete type goes
+//	            into an interface exactly when it implements it)
+//	may      => the upstream type is an interface (a concrete upstream is decided statically)
+//	assertType[T](v) <=> v is held by T without conversion (nil by every interface type)
+func runLattice(c *Case) lib.Result {
+	bo := &BuildObs{}
+	res := lib.Result{Obs: bo, Nontrivial: true, Tags: []string{"src:" + c.Src}}
+	fail := func(sig, what string) {
+		if res.Oracle == "" {
+			res.Oracle, res.Sig = what, sig
+		}
+	}
+	names := append([]string{""}, allTypes...)
+	p := lib.Recover(func() {
+		for _, a := range names {
+			for _, b := range names {
+				r := compose.VerifC07CheckAssignable(rtypes[a], rtypes[b])
+				bo.Lat = append(bo.Lat, LatObs{a, b, r})
+				if a == "" || b == "" {
+					if r != 0 {
+						fail("lattice-nil", fmt.Sprintf("checkAssignable(%q, %q) = %d with an unknown type", a, b, r))
+					}
+					continue
+				}
+				for _, d := range optionsFor(a) {
+					held := dynAssignable(d, b)
+					switch {
+					case r == 1 && !held:
+						fail("lattice-must-unsound", fmt.Sprintf("checkAssignable(%s, %s) = must, but the %s value %s is not a %s: the connection is accepted without a run-time check and the consumer's assertion fails", a, b, a, d, b))
+					case r == 0 && held && d != "nil":
+						fail("lattice-mustnot-overstrict", fmt.Sprintf("checkAssignable(%s, %s) = must not, but the %s value %s is a %s: a legitimate connection is rejected", a, b, a, d, b))
+					}
+				}
+				if r == 2 && !isIface(a) {
+					fail("lattice-may-concrete", fmt.Sprintf("checkAssignable(%s, %s) = may with a concrete upstream type", a, b))
+				}
+			}
+		}
+		for _, d := range dynNames {
+			for _, t := range allTypes {
+				ok := hookAssertType(t, valueOf(d))
+				bo.Asrt = append(bo.Asrt, AsrtObs{d, t, ok})
+				if ok != dynAssignable(d, t) {
+					fail("assert-type", fmt.Sprintf("assertType[%s](%s value) = %v", t, d, ok))
+				}
+			}
+		}
+	})
+	if p != nil {
+		fail("lattice-panic", fmt.Sprintf("checkAssignable / assertType panicked: %v", p))
+	}
+	res.CoqTerm = c.coq(bo)
+	return res
+}
+
 func (engine) Run(ci any) lib.Result {
 	c := ci.(*Case)
+	if c.Src == "lattice" {
+		return runLattice(c)
+	}
 	plans := planRuns(c)
 	obs := make([]BuildObs, buildsFor(c))
 	for i := range obs {
@@ -844,6 +935,26 @@ func (engine) Run(ci any) lib.Result {
 	}
 	if compilePanic {
 		tags = append(tags, "compile:panic")
+	}
+	// which types of the universe the case mentions (tys) and which of them take part in a graph that compiled (ctys)
+	used := map[string]bool{c.In: true, c.Out: true}
+	for _, o := range c.Ops {
+		for _, t := range []string{o.In, o.Out, o.Ty} {
+			if t != "" {
+				used[t] = true
+			}
+		}
+		for _, h := range []*H{o.Pre, o.Post} {
+			if h != nil {
+				used[h.Ty] = true
+			}
+		}
+	}
+	for t := range used {
+		tags = append(tags, "ty:"+t)
+		if bo.Compiled {
+			tags = append(tags, "cty:"+t)
+		}
 	}
 	cls := map[string]bool{}
 	for _, r := range bo.Runs {
